@@ -116,8 +116,8 @@ class CSSStyleSheet(cssutils.stylesheets.StyleSheet):
             else:
                 i += 1
 
-    def _getUsedURIs(self):
-        "Return set of URIs used in the sheet."
+    def _getUsedURIs(self, rules=None):
+        "Return set of URIs used in the sheet (or in the given `rules`)."
         useduris = set()
 
         def scan(rules):
@@ -128,7 +128,7 @@ class CSSStyleSheet(cssutils.stylesheets.StyleSheet):
                     # @media may be nested to any depth
                     scan(r)
 
-        scan(self)
+        scan(self if rules is None else rules)
         return useduris
 
     @property
@@ -658,6 +658,18 @@ class CSSStyleSheet(cssutils.stylesheets.StyleSheet):
         if not rule.wellformed:
             self._log.error('CSSStyleSheet: Invalid rules cannot be added.')
             return
+
+        if rule.type in (rule.STYLE_RULE, rule.MEDIA_RULE):
+            # a rule object may bring selectors resolved elsewhere
+            useduris = self._getUsedURIs([rule])
+            undeclared = useduris.difference(self.namespaces.values())
+            if undeclared:
+                self._log.error(
+                    'CSSStyleSheet: Rule uses namespaces which are not declared '
+                    'in this style sheet: %s' % ', '.join(sorted(undeclared)),
+                    error=xml.dom.NamespaceErr,
+                )
+                return
 
         # CHECK HIERARCHY
         # @charset
